@@ -215,6 +215,8 @@ def r20(ctx, prog):
                     blk.extend(['uninit'] * (m - len(blk)))
                 it.hooks['resize'] = h_resize
                 it.hooks['data'] = lambda it_, f, st, a: P('blk', 0)
+                it.hooks['capacity'] = lambda it_, f, st, a: len(it_.mem['blk'])        # the least the library guarantees
+                it.hooks['reserve'] = lambda it_, f, st, a: None
                 it.hooks['size'] = lambda it_, f, st, a: len(it_.mem['blk']) if (it_.cur_obj is it_.mem['blk'] or (isinstance(it_.cur_obj, P) and it_.cur_obj.r == 'blk') or not isinstance(it_.cur_obj, (list, dict))) else minterp._mlen(minterp._vec(it_, f, st))
                 ser = it.new_record(SER)
                 it._keep.append(ser)
